@@ -235,7 +235,8 @@ theorem SameCalls.recvRequest (s : Chan) (m : Msg) : SameCalls s (recvRequest s 
   simp only []
   refine SameCalls.trans (b := { s with nextReq := s.nextReq + 1, reqs := setAt s.reqs s.nextReq (some m), log := .arrived m :: s.log }) ?_ ?_
   · exact ⟨⟨[.arrived m], rfl, by simp [Ev.foreign]⟩, rfl, rfl, rfl, rfl, rfl, rfl⟩
-  · refine SameCalls.trans (SameCalls.dispatchN _ _ _ _ _ _) ?_
+  · refine SameCalls.trans (SameCalls.dispatchN s.nextReq m.id (m.request.parse.getD 0) (m.meth.getD .sync)
+      (requestDecision s.hasServices m.serviceFound m.meth.isSome m.request.parse.isSome).1 _) ?_
     refine ⟨⟨errorReplies _ _ _, rfl, ?_⟩, rfl, rfl, rfl, rfl, rfl, rfl⟩
     intro e he
     unfold errorReplies at he
